@@ -20,9 +20,13 @@
 (* query simulates a chunk and restores everything; the manager is asked   *)
 (* once per candidate that passes the density threshold (NaN utility for   *)
 (* the others when force_full_budget) and is NOT advanced inside the       *)
-(* chunk.  Only force_full_budget = TRUE is specified for update: without  *)
-(* it the code hands a filtered candidate list to the manager together     *)
-(* with unfiltered indices (recorded finding).                             *)
+(* chunk.  update: with force_full_budget the manager is advanced over the *)
+(* whole chunk (NaN for the filtered candidates); without it (the default) *)
+(* the manager is advanced over the candidates that pass the density       *)
+(* threshold only (CWPFold yields the pass pattern along with the window). *)
+(* The code hands that filtered list to the manager together with the      *)
+(* UNFILTERED indices - right exactly when no filtered candidate precedes  *)
+(* a queried one (FilteredBeforeQueried; recorded finding otherwise).      *)
 (***************************************************************************)
 EXTENDS DensityQS
 
@@ -73,4 +77,20 @@ RECURSIVE CWFold(_, _, _, _)
 CWFold(cws, c, xs, i) ==
     IF i > Len(xs) THEN {c}
     ELSE UNION {CWFold(cws, Tick(r.c), xs, i + 1) : r \in CStep(cws, c, xs[i])}
+
+\* set of [c |-> window after update(chunk), pass |-> which candidates passed the density threshold]
+RECURSIVE CWPFold(_, _, _, _, _)
+CWPFold(cws, thr, c, xs, i) ==
+    IF i > Len(xs) THEN {[c |-> c, pass |-> <<>>]}
+    ELSE UNION {{[c |-> r2.c, pass |-> <<r.ldf >= thr>> \o r2.pass]
+                 : r2 \in CWPFold(cws, thr, Tick(r.c), xs, i + 1)}
+               : r \in CStep(cws, c, xs[i])}
+
+\* subsequence of s at the positions where keep is TRUE
+RECURSIVE SelSeq(_, _)
+SelSeq(s, keep) == IF s = <<>> THEN <<>>
+                   ELSE (IF Head(keep) THEN <<Head(s)>> ELSE <<>>) \o SelSeq(Tail(s), Tail(keep))
+
+FilteredBeforeQueried(pass, qs) ==
+    \E i, j \in DOMAIN qs : i < j /\ ~pass[i] /\ qs[j]
 =============================================================================
